@@ -493,6 +493,7 @@ ASMJIT_FAVOR_SIZE Error init_func_detail(FuncDetail& func, const FuncSignature& 
             // passed indirectly, the address can be passed via register, if the argument's index has GP one.
             if (TypeUtils::is_float(type_id)) {
               arg.assign_stack_offset(int32_t(stack_offset));
+              stack_offset += 8;
             }
             else {
               uint32_t gp_reg_id = Reg::kIdBad;
@@ -500,17 +501,16 @@ ASMJIT_FAVOR_SIZE Error init_func_detail(FuncDetail& func, const FuncSignature& 
                 gp_reg_id = cc._passed_order[RegGroup::kGp].id[arg_index];
               }
 
+              // The address is either passed by a GP register or by stack (always 8 bytes - pointer).
               if (gp_reg_id != Reg::kIdBad) {
                 arg.assign_reg_data(RegType::kGp64, gp_reg_id);
               }
               else {
                 arg.assign_stack_offset(int32_t(stack_offset));
+                stack_offset += 8;
               }
               arg.add_flags(FuncValue::kFlagIsIndirect);
             }
-
-            // Always 8 bytes (float/double/pointer).
-            stack_offset += 8;
             continue;
           }
         }
